@@ -18,14 +18,14 @@ var defectKinds = []string{
 	"similar-paths", "path-bad-user-types", "undefined-types-many-types", "undefined-macros", "bad-enum-bodies",
 	"request-without-body", "response-without-body", "headers-not-object",
 	"empty-path-parameter", "repeated-path-parameter", "path-parameters-redefined",
-	"duplicate-types-other-notation", "notation-mix", "hostile-paths", "export-failures", "allof-duplicate-key-cycle",
+	"duplicate-types-other-notation", "notation-mix", "hostile-paths", "export-failures", "allof-duplicate-key-cycle", "check-errors-in-type-cycle",
 }
 
 // defectGroups: kinds that are detected in the same phase of the builder.
 var defectGroups = [][]string{
 	{"request-without-body", "response-without-body", "headers-not-object"}, // validateCatalog (last phase)
 	{"self-pasting-macros", "undefined-macros", "duplicate-macros"},         // macro collection / paste
-	{"duplicate-types", "duplicate-types-other-notation", "undefined-types-many-types", "rule-violating-types", "mutual-bad-types", "allof-missing", "undefined-enums", "notation-mix", "allof-duplicate-key-cycle"}, // user types
+	{"duplicate-types", "duplicate-types-other-notation", "undefined-types-many-types", "rule-violating-types", "mutual-bad-types", "allof-missing", "undefined-enums", "notation-mix", "allof-duplicate-key-cycle", "check-errors-in-type-cycle"}, // user types
 	{"duplicate-paths", "similar-paths", "path-extra-props", "path-bad-user-types", "path-parameters-redefined"},                                                                        // paths
 	{"empty-path-parameter", "repeated-path-parameter", "hostile-paths"},                                                                                                                // path parameters of Path-less directives
 	{"undefined-tags", "duplicate-tags", "duplicate-servers", "duplicate-operation-ids", "duplicate-enums", "bad-enum-bodies"},
@@ -96,6 +96,10 @@ func defectBlock(kind string, n int, r *Rand) string {
 		for i := 0; i < k; i++ {
 			fmt.Fprintf(&sb, "GET /zs%d_%d/{a}\n  200 any\nGET /zs%d_%d/{b}\n  200 any\n", n, i, n, i)
 		}
+	case "check-errors-in-type-cycle":
+		// user types in a reference cycle, two of them with an example that violates its own rule
+		// (found when the types are checked): which of the two is reported?
+		fmt.Fprintf(&sb, "TYPE @ccA%[1]d\n{\n  \"b\": @ccB%[1]d, // {optional: true}\n  \"c\": @ccC%[1]d, // {optional: true}\n  \"x\": 5 // {min: 10}\n}\nTYPE @ccB%[1]d\n{\n  \"a\": @ccA%[1]d, // {optional: true}\n  \"y\": 7 // {min: 20}\n}\nTYPE @ccC%[1]d\n{\n  \"a\": @ccA%[1]d // {optional: true}\n}\n", n)
 	case "allof-duplicate-key-cycle":
 		// two user types that are each invalid through an allOf duplicate key, and a reference cycle
 		// that puts both into one schema's list of types (which of the two is reported?)
